@@ -35,7 +35,31 @@ _RELAY = re.compile(r'^(\d{1,2})[xX](\d+)([A-Za-z]{0,2})$')       # any unit suf
 _HURD = re.compile(r'^(\d{2,4})(?!\d)')
 
 
-def expected_class(s):
+# The family of an accepted code by its SHAPE - the check's own reading of the vocabulary (it agrees with the library's
+# family patterns on every generated code of the unchanged tree), so that a family pattern which stops recognising some of
+# its codes does not move the expectation along with it.
+OWN_THROW = re.compile(r'^(?:S?DT|S?JT|[HC]T|S?SP|WT|SWT|S?BT|ST|GDT|OT|TART|CHT|OHT|[HL][1-9])(?![A-Za-z])', re.I)
+OWN_HURD = re.compile(r'^\d{2,4}(?:[LS]?H|SC)(?![A-Za-z])', re.I)
+OWN_JUMP = re.compile(r'^(?:S?HJ|S?LJ|S?TJ|PV)$', re.I)
+OWN_RELAY = re.compile(r'^\d{1,2}X', re.I)
+OWN_TRACK = re.compile(r'^(?:(?:\d+|\d?MILE)\s*(?:[lLsS]?[hH]\s*(?:\d[\d.\scm]*)?|[sS][cC]|[yY]|[wW])?|[sS][cC]|[2345][mM][tT]|[lL][hH]|[sS][hH])$', re.S)
+
+
+def own_class(s):
+    if OWN_THROW.match(s):
+        return 4
+    if OWN_HURD.match(s):
+        return 2
+    if OWN_JUMP.match(s):
+        return 3
+    if OWN_RELAY.match(s):
+        return 5
+    if OWN_TRACK.match(s):
+        return 1
+    return 6
+
+
+def lib_class(s):
     if codes.PAT_THROWS.match(s):
         return 4
     if codes.PAT_HURDLES.match(s):
@@ -47,6 +71,10 @@ def expected_class(s):
     if codes.PAT_TRACK.match(s):
         return 1
     return 6
+
+
+def expected_class(s):
+    return own_class(s)
 
 
 def shape_tag(s):
